@@ -6,6 +6,47 @@ VERIF = os.path.dirname(HERE)
 ALL = ["C%02d" % i for i in range(1, 19)]
 
 CLAIMS = {
+    "C01": dict(
+        text=("Rocq proof over a handler-by-handler model of ZorgFileCompiler that runs on ANY parse tree: only todo_prefix/"
+              "priority nodes write kind and priority, ZID-/date-shaped identifiers after the identity position change "
+              "neither ZID nor dates, notes reach the output only at the exit of an item, and a page without syntax errors is "
+              "never flagged. The end-to-end statement (one note per item with exactly the written kind, priority, body, line, "
+              "ZID, dates) is decided on every run by compiling generated pages (672 exhaustive one-item pages + random "
+              "structured pages) with the real parser and comparing with the property-level expectation and, field by field, "
+              "with the Coq listener run on the exported ANTLR tree."),
+        note=("PARTIAL: the ANTLR lexer/parser is not modelled (the .g4 lexer rules are translated to Coq regexes and used "
+              "in C07 only); the end-to-end clause is by correspondence + spec check, not by a theorem over rendered pages."),
+        technique="Rocq proof of listener mechanisms over all trees + listener-model correspondence on exported parse trees + spec check",
+        design="§5 C01"),
+    "C02": dict(
+        text=("Rocq proof, for every listener state: leaving an hN section clears that level's tags/date/properties, entering an "
+              "item clears the note level, in-block comments and later header lines record no tags, digit-only tags are "
+              "dropped, for equal property keys the innermost scope wins (dict-union lemma), create date = own > innermost "
+              "dated header > page date > today. End-to-end scoping is decided by an EXHAUSTIVE enumeration of every legal "
+              "section skeleton up to 5 (quick) / 7 (thorough) headers with decorations on every scope, against the "
+              "property-level expectation and the listener model."),
+        note=("PARTIAL as C01. Known finding: an inline property as the first word of a note or bullet adds a junk key."),
+        technique="Rocq proof of scoping mechanisms + exhaustive skeleton enumeration (spec check + listener correspondence)",
+        design="§5 C02"),
+    "C08": dict(
+        text=("Rocq proof by induction over ALL trees (recovered ones included): with parser errors no note is ever indexed "
+              "(never a partial page), without errors the page is never flagged; the clauses 'never raises' and 'errors => "
+              "flagged' are REFUTED by witnesses on trees exported from the real parser (known findings). On every run: "
+              "valid, damaged and arbitrary texts through the real compiler and the listener model, plus index scenarios "
+              "(damage after create, reindex twice, create, whitelist)."),
+        note=("Known findings: silent drop of broken pages without a recovered note, ValueError on invalid calendar dates, "
+              "IndexError in the bullet scan, handler exceptions on recovered trees. ANTLR error recovery is not modelled."),
+        technique="Rocq proof (tree induction: output invariants) + refutation witnesses + fuzzed correspondence + index scenarios",
+        design="§5 C08"),
+    "C12": dict(
+        text=("Rocq proof of the text form (kind char, priority exactly for not-done todos, stripped body, newline; strip "
+              "idempotent) and a machine-checked refutation on exported trees (done todo with a Pn-leading body). The round "
+              "trip through the real parser is decided on every run: generated items compiled, rendered with Note.to_string, "
+              "recompiled and compared; ungrouped renderings of whole pages under a header recompiled to the same notes."),
+        note=("PARTIAL: round trip is differential (real parser), not a theorem. Known finding: prefix re-interpretation for "
+              "done/cancelled todos whose body starts with Pn."),
+        technique="Rocq proof (text-form lemmas, refutation witness) + compile/to_string/compile round trip on the implementation",
+        design="§5 C12"),
     "C17": dict(
         text=("Rocq proof over the model of run_action_open/_open_link (messages are an inductive with exactly EDIT, "
               "SEARCH, PROMPT, ECHO): several targets are offered in line order by one PROMPT, a single target is opened "
